@@ -82,6 +82,9 @@ def run(chk, replay=None):
             dia = list(W.diamond_worlds())
             cases += [(w, 'diamond', None) for w in dia]
             stats['diamonds'] = len(dia)
+            rel = list(W.relay_worlds())
+            cases += [(w, 'relay', None) for w in rel]
+            stats['relays'] = len(rel)
             stats['exhaustive_small'] = len(small)
             n = 250 if chk.tier == 'quick' else 3000
             for _ in range(n):
